@@ -59,14 +59,15 @@ SP_OPTIONAL = ["optstrref", "optvecu8", "optsliceu8", "nz", "aliasoptu8"]       
 class Field:
     def __init__(s, ft, idx=None, b=False, tag=None, skip=False, gparam=False):
         s.ft, s.idx, s.b, s.tag, s.skip, s.gparam = ft, idx, b, tag, skip, gparam
-        s.name = None; s.style = 0; s.gshape = "T"
+        s.name = None; s.style = 0; s.gshape = "T"; s.alias = None
     def sp(s): return SPECIAL[s.ft[1]] if s.ft[0] == "sp" else None
     def codec(s): return s.sp()["codec"] if s.sp() else "d"
     def synopt(s):
+        # ("aopt", ft): Option behind a type alias — the macro's syntactic test (lib.rs is_option) says no
         if s.sp(): return s.sp()["synopt"]
         return 1 if s.ft[0] == "opt" or (s.ft[0] == "ty" and s.ft[1].startswith("opt(")) else 0
     def clone(s):
-        f = Field(s.ft, s.idx, s.b, s.tag, s.skip, s.gparam); f.name, f.style, f.gshape = s.name, s.style, s.gshape; return f
+        f = Field(s.ft, s.idx, s.b, s.tag, s.skip, s.gparam); f.name, f.style, f.gshape, f.alias = s.name, s.style, s.gshape, s.alias; return f
 
 class Variant:
     def __init__(s, idx, shape, fields, enc=None, tag=None):
@@ -93,7 +94,26 @@ class Schema:
 def model_ft(ft):
     """-> ('ty', desc) | ('ref', k) | ('opt', ft) | ('seq', ft) with special leaves replaced by their model descriptor"""
     if ft[0] == "sp": return ("ty", SPECIAL[ft[1]]["model"])
+    if ft[0] == "aopt":
+        m = model_ft(ft[1])
+        return ("ty", "opt(%s)" % m[1]) if m[0] == "ty" else ("opt", m)
     if ft[0] in ("opt", "seq"): return (ft[0], model_ft(ft[1]))
+    return ft
+
+# ("aopt", ft): `type AOpt… = Option<ft>` with the field declared at the alias (no codec).  The macro sees no `Option`
+# syntax (synopt = 0: slot initialised with None, no syntactic unknown-variant arm) but `<T as Decode>::nil()` is Some(None) and
+# `Encode::is_nil` is None-ness, so the field is optional through the traits.  ft: a reference, Vec of a reference, a plain
+# mandatory leaf or a borrowed leaf of AOPT_SP.  Values, text and bytes are those of ("opt", ft).
+AOPT_LEAF = ["u8", "u16", "u32", "u64", "i8", "i64", "bool", "char", "f64", "string", "bytevec", "bytearr4", "unit", "int",
+             "seq(u8)", "arr3(u16)", "tup(u8,i8)", "result(u8,string)", "duration", "ip"]
+AOPT_SP = ["strref", "bytesref"]
+
+def vview(ft):
+    """value-level view of a field type: an alias-Option is the Option it names"""
+    if ft[0] == "aopt":
+        i = ft[1]
+        if i[0] in ("ty", "sp"): return ("ty", "opt(%s)" % model_ft(i)[1])
+        return ("opt", i)
     return ft
 
 def ft_text(ft):
@@ -121,7 +141,7 @@ def schema_text(sc): return ";".join(def_text(d) for d in sc.defs)
 def ft_has_lt(sc, ft):
     if ft[0] == "sp": return bool(SPECIAL[ft[1]]["lt"])
     if ft[0] == "ref": return def_has_lt(sc, sc.defs[ft[1]])
-    if ft[0] in ("opt", "seq"): return ft_has_lt(sc, ft[1])
+    if ft[0] in ("opt", "seq", "aopt"): return ft_has_lt(sc, ft[1])
     return False
 
 def all_fields(d):
@@ -133,7 +153,7 @@ def is_optional(f):
     """the macro's view: an unfilled slot resolves to a nil value (decode.rs:459)"""
     if f.skip: return False
     if f.ft[0] == "sp": return f.ft[1] in SP_OPTIONAL
-    if f.ft[0] == "opt": return True
+    if f.ft[0] in ("opt", "aopt"): return True        # aopt: <T as Decode>::nil().is_some() (decode.rs:124)
     if f.ft[0] == "ty": return f.ft[1].startswith("opt(")
     return False
 
@@ -169,6 +189,9 @@ def gen_leaf_ft(rng, optional=None, allow_lt=True, for_skip=False):
     if for_skip:
         return ("ty", rng.choice([d for d, _, df in PLAIN if df]))
     r = rng.random()
+    if optional is not False and rng.random() < 0.08:
+        if allow_lt and rng.random() < 0.25: return ("aopt", ("sp", rng.choice(AOPT_SP)))
+        return ("aopt", ("ty", rng.choice(AOPT_LEAF)))
     if r < 0.22:
         kinds = [k for k, s in SPECIAL.items() if (allow_lt or not s["lt"])]
         if optional is True: kinds = [k for k in kinds if k in SP_OPTIONAL]
@@ -184,7 +207,7 @@ def def_nullable(defs, j):
     if d.kind != "S" or not d.transparent: return False
     f = d.fields[0]
     if f.ft[0] == "ref": return def_nullable(defs, f.ft[1])
-    if f.ft[0] == "opt": return True
+    if f.ft[0] in ("opt", "aopt"): return True
     if f.ft[0] == "sp": return SPECIAL[f.ft[1]]["model"].startswith("opt(") or f.ft[1] in ("nz", "nz0")
     return f.ft[0] == "ty" and f.ft[1].startswith("opt(")
 
@@ -194,7 +217,11 @@ def gen_field_ft(rng, sc_defs, k, optional=None, allow_lt=True):
         j = rng.randrange(0, k)
         r = rng.random()
         if def_nullable(sc_defs, j): return ("ref", j) if optional is not True else gen_leaf_ft(rng, optional, allow_lt)
-        if optional is True or (optional is None and r < 0.5): return ("opt", ("ref", j))
+        if optional is True or (optional is None and r < 0.5):
+            a = rng.random()
+            if a < 0.3: return ("aopt", ("ref", j))
+            if a < 0.36: return ("aopt", ("seq", ("ref", j)))
+            return ("opt", ("ref", j))
         if r < 0.8 or optional is False: return ("ref", j)
         return ("seq", ("ref", j))
     return gen_leaf_ft(rng, optional, allow_lt)
@@ -285,6 +312,8 @@ def _fix_borrow_flags(sc):
 def name_schema(sc, prefix, rng=None):
     for k, d in enumerate(sc.defs):
         d.name = "%s%sx%d" % (prefix, sc.sid, k)
+        for n, f in enumerate(all_fields(d)):
+            f.alias = "AOpt_%s_%d" % (d.name, n) if f.ft[0] == "aopt" else None
         if d.kind == "S":
             for p, f in enumerate(d.fields): f.name = ("f%d" % p) if rng is None else "q%d_%d" % (rng.randrange(1000), p)
         else:
@@ -342,12 +371,18 @@ def rust_ft(sc, ft, static=False):
         r = SPECIAL[ft[1]]["rust"]
         return r.replace("'a", "'static") if static else r
     if ft[0] == "ref": return def_rust_name(sc, ft[1], static)
-    if ft[0] == "opt": return "Option<%s>" % rust_ft(sc, ft[1], static)
+    if ft[0] in ("opt", "aopt"): return "Option<%s>" % rust_ft(sc, ft[1], static)     # aopt: what the alias expands to
     return "Vec<%s>" % rust_ft(sc, ft[1], static)
 
 def field_decl_type(sc, d, f):
     if f.gparam: return f.gshape
+    if f.ft[0] == "aopt": return f.alias + ("<'a>" if ft_has_lt(sc, f.ft[1]) else "")
     return rust_ft(sc, f.ft)
+
+def alias_decls(sc, d):
+    """one `type` alias per aopt field: the macro sees a plain path type, rustc sees Option<..>"""
+    return ["pub type %s%s = %s;" % (f.alias, "<'a>" if ft_has_lt(sc, f.ft[1]) else "", rust_ft(sc, f.ft))
+            for f in all_fields(d) if f.ft[0] == "aopt" and not f.gparam]
 
 def field_attrs(f):
     """attribute spelling variants (f.style) never change the bytes"""
@@ -382,10 +417,12 @@ def level_attrs(enc, tag, extra=None):
 
 def parse_expr(sc, ft, p="p"):
     if ft[0] == "sp": return SPECIAL[ft[1]]["parse"].format(p=p)
+    if ft[0] == "aopt" and ft[1][0] == "sp": return "parse_opt(%s, |p| %s)" % (p, SPECIAL[ft[1][1]]["parse"].format(p="p"))
     return "<%s as Canon>::parse(%s)" % (rust_ft(sc, ft, True), p)
 
 def show_expr(sc, ft, x):
     if ft[0] == "sp": return SPECIAL[ft[1]]["show"].format(x=x)
+    if ft[0] == "aopt" and ft[1][0] == "sp": return "show_opt(%s, |y| %s)" % (x, SPECIAL[ft[1][1]]["show"].format(x="y"))
     return "Canon::show(%s)" % x
 
 def borrow_expr(sc, f, x):
@@ -400,7 +437,9 @@ def borrow_expr(sc, f, x):
         return b.format(x="(*%s)" % x)
     if not ft_has_lt(sc, ft): return None
     if ft[0] == "ref": return "%s.bchk(lo, hi)" % x
-    if ft[0] == "opt" and ft[1][0] == "ref": return "%s.as_ref().map_or(true, |y| y.bchk(lo, hi))" % x
+    if ft[0] in ("opt", "aopt") and ft[1][0] == "ref": return "%s.as_ref().map_or(true, |y| y.bchk(lo, hi))" % x
+    if ft[0] == "aopt" and ft[1][0] == "seq" and ft[1][1][0] == "ref": return "%s.as_ref().map_or(true, |l| l.iter().all(|y| y.bchk(lo, hi)))" % x
+    if ft[0] == "aopt" and ft[1][0] == "sp": return "%s.as_ref().map_or(true, |y| %s)" % (x, SPECIAL[ft[1][1]]["borrow"].format(x="(*y)"))
     if ft[0] == "seq" and ft[1][0] == "ref": return "%s.iter().all(|y| y.bchk(lo, hi))" % x
     return None
 
@@ -433,7 +472,7 @@ def emit_def(sc, k):
     if d.generic: gen.append("T")
     g = "<%s>" % ", ".join(gen) if gen else ""
     st_name = def_rust_name(sc, k, static=True)
-    out = ["#[derive(Encode, Decode, CborLen)]"]
+    out = alias_decls(sc, d) + ["#[derive(Encode, Decode, CborLen)]"]
     if d.kind == "S":
         attrs = level_attrs(d.enc, d.tag, "transparent" if d.transparent else None)
         out.append("%spub struct %s%s%s%s" % (attrs, d.name, g, fields_rust(sc, d, d.fields, d.shape, True), "" if d.shape == "n" else ";"))
@@ -487,6 +526,7 @@ def pdesc(s):
 def leaf_desc(ft): return pdesc(model_ft(ft)[1])
 
 def gen_ft_value(sc, ft, rng, present=None, depth=0):
+    ft = vview(ft)
     if ft[0] == "sp" and ft[1] in ("nz", "nz0"):
         if present is False: return 0
         v = rng.choice([1, 23, 24, 255, 256, 65535, 65536, (1 << 32) - 1, 1 << 32, U64, rng.getrandbits(rng.randrange(1, 65)) or 1])
@@ -524,6 +564,7 @@ def show_leaf(d, v, canon):
     return tg.show(d, v)
 
 def show_ft(sc, ft, v, canon=False):
+    ft = vview(ft)
     if ft[0] in ("ty", "sp"): return show_leaf(leaf_desc(ft), v, canon)
     if ft[0] == "ref": return show_def(sc, ft[1], v, canon)
     if ft[0] == "opt": return "null" if v is None else "some(%s)" % show_ft(sc, ft[1], v[1], canon)
@@ -540,6 +581,7 @@ def show_def(sc, k, v, canon=False):
     return "v%d(%s)" % (v[1], show_fields(sc, find_variant(d, v[1]).fields, v[2], canon))
 
 def default_ft(ft):
+    ft = vview(ft)
     if ft[0] == "opt": return None
     if ft[0] == "seq": return []
     d = leaf_desc(ft)
@@ -554,6 +596,7 @@ def default_ft(ft):
     raise ValueError(ft)
 
 def dflt_ft(sc, ft, v):
+    ft = vview(ft)
     if ft[0] == "ref": return dflt_def(sc, ft[1], v)
     if ft[0] == "opt": return None if v is None else ("some", dflt_ft(sc, ft[1], v[1]))
     if ft[0] == "seq": return [dflt_ft(sc, ft[1], x) for x in v]
@@ -573,9 +616,10 @@ INT_KINDS = ("u", "i", "nzu", "nzi", "int", "char")
 def field_is_nil(f, v):
     """the macro's presence test (encode.rs:543)"""
     c = f.codec()
-    if c == "d":
-        if f.ft[0] == "opt": return v is None
-        if f.ft[0] in ("ty", "sp"): return leaf_desc(f.ft)[0] == "opt" and v is None
+    if c == "d":                                 # Encode::is_nil of the type: None-ness of an Option, also behind an alias (aopt)
+        ft = vview(f.ft)
+        if ft[0] == "opt": return v is None
+        if ft[0] in ("ty", "sp"): return leaf_desc(ft)[0] == "opt" and v is None
         return False
     if c == "c1": return v == 0
     if c == "y": return bool(f.synopt()) and v is None
@@ -586,6 +630,7 @@ def hd(mt, n, rng):
     return head(mt, n, rng.choice(widths_for(n)))
 
 def enc_ft(sc, ft, v, rng):
+    ft = vview(ft)
     if ft[0] == "sp" and ft[1] in ("nz", "nz0"): return b"\xf6" if v == 0 else hd(0, v, rng)
     if ft[0] in ("ty", "sp"):
         d = leaf_desc(ft)
@@ -659,6 +704,7 @@ def rf_frame(mt, k, items):
 def rf_tag(t, ch): return b"" if t is None else rf_head(6, t, ch.head())
 
 def rf_ft(sc, ft, v, ch):
+    ft = vview(ft)
     if ft[0] in ("ty", "sp"): return enc_ft(sc, ft, v, None)
     if ft[0] == "ref": return rf_def(sc, ft[1], v, ch)
     if ft[0] == "opt": return b"\xf6" if v is None else rf_ft(sc, ft[1], v[1], ch)
@@ -753,6 +799,7 @@ def twin(sc, rng):
     fix_borrow_flags(t)
     name_schema(t, "U", rng)
     def conv_ft(ft, v):
+        ft = vview(ft)
         if ft[0] == "ref": return conv(ft[1], v)
         if ft[0] == "opt": return None if v is None else ("some", conv_ft(ft[1], v[1]))
         if ft[0] == "seq": return [conv_ft(ft[1], x) for x in v]
@@ -769,16 +816,16 @@ def twin(sc, rng):
 
 # ---------------------------------------------------------------- documented-compatible edits (C10)
 def enum_only_optional(sc, e):
-    """every occurrence of definition e as a field type is exactly Option<e>, and there is at least one"""
+    """every occurrence of definition e as a field type is exactly Option<e> — spelled so or through an alias (aopt) —, and there is at least one"""
     n = 0
     for d in sc.defs:
         for f in all_fields(d):
             def occ(ft, top):
                 nonlocal n
                 if ft == ("ref", e): return False
-                if ft[0] in ("opt", "seq"):
+                if ft[0] in ("opt", "seq", "aopt"):
                     if ft[1] == ("ref", e):
-                        if ft[0] == "opt" and top: n += 1; return True
+                        if ft[0] in ("opt", "aopt") and top: n += 1; return True
                         return False
                     return occ(ft[1], False)
                 return True
@@ -805,7 +852,8 @@ def new_optional_field(rng, sc, k, fields, enc, tagged=None, reserved=()):
     if idx > 2147483000 or (enc == "a" and idx > 400): idx = next(i for i in range(1000) if i not in used)
     r = rng.random()
     j = rng.randrange(0, k) if k > 0 else 0
-    if k > 0 and r < 0.25 and not def_nullable(sc.defs, j): ft = ("opt", ("ref", j))
+    if k > 0 and r < 0.25 and not def_nullable(sc.defs, j): ft = ("aopt" if rng.random() < 0.35 else "opt", ("ref", j))
+    elif r < 0.33: ft = ("aopt", ("ty", rng.choice(AOPT_LEAF)))
     elif r < 0.45: ft = ("sp", rng.choice(["optvecu8", "nz", "aliasoptu8"]))
     else: ft = ("ty", rng.choice(OPT_PLAIN))
     tag = pick_tag(rng, 0.25 if tagged is None else (1.0 if tagged else 0.0))
@@ -861,6 +909,7 @@ def by_idx(fields): return {f.idx: (p, f) for p, f in enumerate(fields) if not f
 class Unknown(Exception): pass           # an enum value whose variant the reader does not know, outside an Option field
 
 def migrate_ft(w, r, ftw, ftr, v, flags):
+    ftw, ftr = vview(ftw), vview(ftr)            # an alias-Option field is optional through nil(): same guarantee 4
     if ftr[0] == "ref": return migrate_def(w, r, ftr[1], v, flags)
     if ftr[0] == "opt":
         if v is None: return None
@@ -942,6 +991,20 @@ def fixed_schemas():
     out["f10n"] = mk("f10n", [Def("S", fields=[F(("ty", "u8"), 0), F(("ty", "opt(u8)"), 1, tag=9), F(("ty", "u8"), 2)])])
     out["alias"] = mk("alias", [Def("S", enc="m", fields=[F(("sp", "aliasoptvec"), 0), F(("ty", "u8"), 1)]),
                                 Def("S", fields=[F(("ty", "u8"), 0), F(("sp", "aliasoptvec"), 1)])])
+    # transparent newtypes over a field with a codec (the three impls must all honour it: seed C07-3 drops it in CborLen only)
+    out["trc"] = mk("trc", [Def("S", transparent=True, shape="t", fields=[F(("sp", "vecu8"), 0)]),
+                            Def("S", transparent=True, shape="n", fields=[F(("sp", "arr4u8"), 0)]),
+                            Def("S", transparent=True, shape="t", fields=[F(("sp", "optvecu8"), 0, tag=5)]),
+                            Def("S", transparent=True, shape="n", fields=[F(("sp", "sliceu8"), 3)])])
+    # Option behind a type alias, no codec (`type Maybe<T> = Option<T>; #[n(0)] e: Maybe<E>, #[n(1)] z: u8`): optional through
+    # Decode::nil() only, so the unknown-variant arm is the `<T as Decode>::nil().is_some()` one (decode.rs:290).  index_only and
+    # regular enum gaining variant 7, array and map encoding; aoq: both enums side by side, one field spelled Option<..>
+    aholder = lambda enc: Def("S", enc=enc, fields=[F(("aopt", ("ref", 0)), 0), F(("ty", "u8"), 1)])
+    for sid, enc in (("aoa", None), ("aom", "m")):
+        out[sid + "o"] = mk(sid + "o", [io_old.clone(), aholder(enc)]); out[sid + "n"] = mk(sid + "n", [io_new.clone(), aholder(enc)])
+        out[sid + "ro"] = mk(sid + "ro", [rg_old.clone(), aholder(enc)]); out[sid + "rn"] = mk(sid + "rn", [rg_new.clone(), aholder(enc)])
+    qholder = lambda: Def("S", fields=[F(("opt", ("ref", 0)), 0), F(("aopt", ("ref", 1)), 1), F(("aopt", ("ty", "string")), 2, tag=9), F(("ty", "u8"), 3)])
+    out["aoqo"] = mk("aoqo", [io_old.clone(), rg_old.clone(), qholder()]); out["aoqn"] = mk("aoqn", [io_new.clone(), rg_new.clone(), qholder()])
     # the example of the crate documentation (lib.rs:47-71)
     point = Def("S", fields=[F(("ty", "f64"), 0), F(("ty", "f64"), 1)])
     state = Def("E", variants=[Variant(0, "u", []), Variant(1, "n", [F(("ty", "u64"), 0)])])
@@ -970,6 +1033,7 @@ def get_world(tier, rng):
         t, done = compat_edit(sc, r, sc.sid + "c")
         if done and not has_lt_change(sc, t): w.compat.append((sc, t, done))
     w.compat += [(w.fixed["f9o"], w.fixed["f9n"], ["variant"]), (w.fixed["rgo"], w.fixed["rgn"], ["variant"]), (w.fixed["f10o"], w.fixed["f10n"], ["add"])]
+    w.compat += [(w.fixed[p + "o"], w.fixed[p + "n"], ["variant"]) for p in ("aoa", "aom", "aoar", "aomr", "aoq")]
     w.mandatory = []         # (reader, writer lacking a mandatory field, (def, variant, idx))
     for sc in w.base[: max(10, nbase * 3 // 10)]:
         m = drop_mandatory(sc, r, sc.sid + "m")
@@ -1088,6 +1152,7 @@ def group_flags(fields, enc, vs, flags):
     if any(f.ft == ("sp", "aliasoptvec") and x is None for f, x in fv): flags.add("alias")
 
 def ft_flags(sc, ft, v, flags):
+    ft = vview(ft)
     if ft[0] == "ref": def_flags(sc, ft[1], v, flags)
     elif ft[0] == "opt":
         if v is not None: ft_flags(sc, ft[1], v[1], flags)
@@ -1168,7 +1233,7 @@ def uses(sc, k, j):
     """does definition k (transitively) contain definition j"""
     def in_ft(ft):
         if ft[0] == "ref": return ft[1] == j or uses(sc, ft[1], j)
-        if ft[0] in ("opt", "seq"): return in_ft(ft[1])
+        if ft[0] in ("opt", "seq", "aopt"): return in_ft(ft[1])
         return False
     return k == j or any(in_ft(f.ft) for f in all_fields(sc.defs[k]))
 
